@@ -335,7 +335,7 @@ func gated(p params) *fw.Scenario {
 
 func run(ctx *fw.Ctx, rep *fw.Report) {
 	rep.Rule = "one scenario = a closed program (requests, flushes, gate release) run on the real server under the controlled scheduler; every Mazurkiewicz trace is explored (DPOR+sleep sets) or, as fallback, every schedule up to a preemption bound; distinct = distinct reply orders per scenario"
-	rep.Assumptions = append(rep.Assumptions, "independence classes of DESIGN §2.2", "sync.Pool in fresh mode, message cache treated as empty", "setup requests before the explored window follow the default schedule")
+	rep.Assumptions = append(rep.Assumptions, "independence classes of DESIGN §2.2", "sync.Pool in fresh mode; message cache treated as empty except in the scenarios named recycled-after-self-flush, which use the real cache", "setup requests before the explored window follow the default schedule")
 	var scs []*fw.Scenario
 	for _, k := range []string{"own", "idle", "answered"} {
 		scs = append(scs, simple(k))
